@@ -1,6 +1,6 @@
-(* Executable model of bigtree/utils/plot.py:21-84 (reingold_tilford) and its helpers
-   _first_pass 129-230, _get_midpoint_of_children 233-250, _get_subtree_shift 253-328,
-   _second_pass 331-390, _third_pass 393-407, over exact rationals Q.  No proofs in this file.
+(* Executable model of bigtree/utils/plot.py:22-87 (reingold_tilford, as of 09acfdb) and its helpers
+   _first_pass 132-233, _get_midpoint_of_children 236-253, _get_subtree_shift 256-331,
+   _second_pass 334-393, _third_pass 396-410, over exact rationals Q.  No proofs in this file.
 
    The model is the real-number algorithm: every Python float operation (+ - * / max) is the exact
    rational one.  Values are normalised with Qred wherever the code stores them on a node or passes
@@ -31,7 +31,7 @@ Fixpoint dheight (d : dtree) : nat :=
 
 Definition dzero : dtree := D 0 0 0 [].
 
-(* plot.py:233-250  (last.x + last.shift + first.x + first.shift) / 2, or 0.0 without children *)
+(* plot.py:236-253  (last.x + last.shift + first.x + first.shift) / 2, or 0.0 without children *)
 Definition midpoint_raw (ks : list dtree) : Q :=
   match ks with
   | [] => 0
@@ -39,7 +39,7 @@ Definition midpoint_raw (ks : list dtree) : Q :=
   end.
 Definition midpoint (ks : list dtree) : Q := Qred (midpoint_raw ks).
 
-(* plot.py:295-303  the two `while` loops: starting at the first element of the list (the contour
+(* plot.py:298-306  the two `while` loops: starting at the first element of the list (the contour
    node), walk along its siblings (the rest of the list) while the current node has no children and
    there is a next sibling.  Result: the first element with children, else the last element. *)
 Fixpoint pick (l : list dtree) (dflt : dtree) : dtree :=
@@ -55,7 +55,7 @@ Fixpoint pick (l : list dtree) (dflt : dtree) : dtree :=
 (* 1 - left_idx / right_idx   (right_idx >= 1, left_idx < right_idx at every call) *)
 Definition ratio (li ri : nat) : Q := 1 - (Z.of_nat li # Pos.of_nat ri).
 
-(* plot.py:280-328, the calls with initial_run = False.
+(* plot.py:283-331, the calls with initial_run = False.
    ls: the current left contour node followed by its left siblings (nearest first);
    rs: the current right contour node followed by its right siblings.
    fuel bounds the recursion depth (one level of the tree per call). *)
@@ -77,7 +77,7 @@ Fixpoint contour (fuel : nat) (rt sts : Q) (ls rs : list dtree) (lcs rcs cum : Q
   | _, _ => cum
   end.
 
-(* plot.py:253-328, the call with initial_run = True: new_shift = 0, no sibling walk *)
+(* plot.py:256-331, the call with initial_run = True: new_shift = 0, no sibling walk *)
 Definition subtree_shift (sts : Q) (left right : dtree) (li ri : nat) : Q :=
   match dkids left, dkids right with
   | _ :: _, _ :: _ =>
@@ -86,14 +86,14 @@ Definition subtree_shift (sts : Q) (left right : dtree) (li ri : nat) : Q :=
   | _, _ => 0
   end.
 
-(* plot.py:207-219  _shift = max(_shift, _get_subtree_shift(children[j], node, j, idx)) for j < idx *)
+(* plot.py:210-222  _shift = max(_shift, _get_subtree_shift(children[j], node, j, idx)) for j < idx *)
 Fixpoint max_shift (sts : Q) (nd : dtree) (idx j : nat) (lefts : list dtree) (acc : Q) : Q :=
   match lefts with
   | [] => acc
   | l :: r => max_shift sts nd idx (S j) r (Qmax acc (subtree_shift sts l nd j idx))
   end.
 
-(* plot.py:221-229  sibling k: shift += _shift * k / idx, for all children of the parent
+(* plot.py:224-232  sibling k: shift += _shift * k / idx, for all children of the parent
    (already processed, the node itself, and the not yet processed right siblings) *)
 Fixpoint bump (s : Q) (idx k : nat) (l : list dtree) : list dtree :=
   match l with
@@ -109,7 +109,7 @@ Fixpoint bumpq (s : Q) (idx k : nat) (l : list Q) : list Q :=
   end.
 
 (* The loop over the children of one parent (the order in which the post-order traversal reaches
-   the `else` branch of _first_pass 183-229 for them).
+   the `else` branch of _first_pass 186-232 for them).
    done: processed siblings, left to right, with their current shift;
    todo: for every unprocessed sibling the list of its processed children (its own subtree is
    processed before the node itself and does not depend on the siblings);
@@ -121,16 +121,16 @@ Fixpoint place (ss sts : Q) (done : list dtree) (todo : list (list dtree)) (pend
   | [] => done
   | dk :: rest =>
       let idx := length done in
-      let mid := midpoint dk in                         (* 186-187 *)
+      let mid := midpoint dk in                         (* 189-190 *)
       let x := match done with
-               | [] => match dk with [] => 0 | _ :: _ => mid end           (* 196-198 *)
-               | d0 :: _ => Qred (dx (last done d0) + ss)                   (* 190-191 *)
+               | [] => match dk with [] => 0 | _ :: _ => mid end           (* 199-201 *)
+               | d0 :: _ => Qred (dx (last done d0) + ss)                   (* 193-194 *)
                end in
       let md := match done, dk with
-                | _ :: _, _ :: _ => Qred (x - mid)                          (* 192-193 *)
+                | _ :: _, _ :: _ => Qred (x - mid)                          (* 195-196 *)
                 | _, _ => 0
                 end in
-      let nd := D x md (hd 0 pend) dk in                                    (* 200-202 *)
+      let nd := D x md (hd 0 pend) dk in                                    (* 203-205 *)
       match done with
       | [] => place ss sts [nd] rest (tl pend)                              (* idx = 0: 208 *)
       | _ :: _ =>
@@ -145,11 +145,11 @@ Fixpoint fp (ss sts : Q) (t : tree) : list dtree :=
   | T _ _ _ ks => place ss sts [] (map (fp ss sts) ks) (map (fun _ => 0) ks)
   end.
 
-(* plot.py:178-181 the root: x = midpoint of children, mod = shift = 0 *)
+(* plot.py:181-184 the root: x = midpoint of children, mod = shift = 0 *)
 Definition first_pass (ss sts : Q) (t : tree) : dtree :=
   let ks := fp ss sts t in D (midpoint ks) 0 0 ks.
 
-(* plot.py:331-377  final_x = x + shift + cum_mod + x_offset,
+(* plot.py:334-380  final_x = x + shift + cum_mod + x_offset,
    final_y = (max_depth - depth) * level_separation + y_offset; children get cum_mod + mod + shift *)
 Fixpoint second (ls xo yo : Q) (maxd depth : nat) (cum : Q) (d : dtree) : ctree :=
   match d with
@@ -159,7 +159,7 @@ Fixpoint second (ls xo yo : Q) (maxd depth : nat) (cum : Q) (d : dtree) : ctree 
         (map (second ls xo yo maxd (S depth) (Qred (cum + m + sh))) ks)
   end.
 
-(* plot.py:379-390  the returned x_adjustment: max over the children's results, and
+(* plot.py:382-393  the returned x_adjustment: max over the children's results, and
    max(0.0, -final_x) at a leaf *)
 Fixpoint adjust (c : ctree) : Q :=
   match c with
@@ -170,13 +170,48 @@ Fixpoint adjust (c : ctree) : Q :=
 Fixpoint cshift (a : Q) (c : ctree) : ctree :=
   match c with C x y ks => C (Qred (x + a)) y (map (cshift a) ks) end.
 
-(* plot.py:393-407  `if x_adjustment:` add it to every x *)
+(* plot.py:396-410  `if x_adjustment:` add it to every x *)
 Definition third (c : ctree) : ctree :=
   let a := adjust c in if Qeq_bool a 0 then c else cshift a c.
 
+(* the three passes with the two numbers the second pass takes from the tree around the start
+   node: max_depth (of the WHOLE tree: basenode.py max_depth goes through self.root) and the
+   absolute depth of the start node *)
+Definition rt_gen (p : params) (maxd depth : nat) (t : tree) : ctree :=
+  third (second (p_ls p) (p_xo p) (p_yo p) maxd depth 0 (first_pass (p_ss p) (p_sts p) t)).
+
 (* basenode.py:565-573 max_depth = number of nodes on the longest root-to-leaf path = height *)
-Definition reingold_tilford (p : params) (t : tree) : ctree :=
-  third (second (p_ls p) (p_xo p) (p_yo p) (height t) 1%nat 0 (first_pass (p_ss p) (p_sts p) t)).
+Definition reingold_tilford (p : params) (t : tree) : ctree := rt_gen p (height t) 1%nat t.
+
+(* BinaryNode trees (known finding K5).  node.children of a BinaryNode is always the two-slot
+   list [left, right] with None for an empty slot (binarynode.py), also for a leaf.  After the
+   reset loop (preorder_iter skips the None slots) _first_pass runs
+   `for child in tree_node.children: _first_pass(child, ...)` (plot.py:175-176) and the callee
+   starts with `for child in tree_node.children` on None for the first empty slot it meets; every
+   finite BinaryNode tree has one, so the call raises AttributeError for every BinaryNode tree and
+   writes no coordinates. *)
+Definition reingold_tilford_binary (p : params) (t : tree) : res ctree := Raise AttributeError.
+
+(* reingold_tilford called on a node that is not the root of its tree.  _first_pass takes the
+   `else` branch (is_root is false).  If the start node is the FIRST child of its parent
+   (left_sibling is None, index 0: no left sibling is read, no sibling is shifted) the start node
+   gets x = midpoint of its children (0.0 without children), mod = 0, shift = 0 (reset): the same
+   as the root branch, so the result is the layout of the subtree, with y counted from the whole
+   tree's max_depth and the node's absolute depth.  For a start node with a left sibling the call
+   reads the left sibling's x / the left siblings' subtrees (attributes of nodes outside the
+   subtree: TypeError on a fresh tree) and writes `shift` on all siblings: outside the modelled
+   domain (None). *)
+Definition rt_at (p : params) (whole : tree) (path : list nat) : option ctree :=
+  match path with
+  | [] => Some (reingold_tilford p whole)
+  | _ :: _ =>
+      if Nat.eqb (last path 1%nat) 0
+      then match subtree_at whole path with
+           | Some sub => Some (rt_gen p (height whole) (S (length path)) sub)
+           | None => None
+           end
+      else None
+  end.
 
 (* ---------------------------------------------------------------------------------------------
    Running the layout again on a tree that was laid out before.
